@@ -7,6 +7,10 @@ SPEC = {
         {"name": "history", "pkg": O4, "kind": "rapid", "run": "^TestVerifC18History$",
          "quick": {"checks": 600, "shards": 1, "timeout": 300},
          "thorough": {"checks": 2000, "shards": 16, "timeout": 900}},
+        # bridge-line round trip as a history over several bridges; results must not change after they were returned
+        {"name": "args-history", "pkg": O4, "kind": "rapid", "run": "^TestVerifC18ArgsHistory$",
+         "quick": {"checks": 200, "shards": 1, "timeout": 300},
+         "thorough": {"checks": 2000, "shards": 8, "timeout": 900}},
     ] + [
         # one unit per start kind: a rapid case is one traced start (checks = traced starts per shard), and a
         # saved fail file replays exactly the test function it came from
